@@ -804,6 +804,8 @@ func vfDiscGenCases(r *vfRand, tier string) []*vfDiscCase {
 	exh := 2
 	if tier == "thorough" {
 		exh = 3
+		// an outage at start-up that outlasts five minutes (ten retry budgets), then a healthy provider: still heals
+		add("long-outage", vfDiscRep("e503", 10*vfDiscBudget))
 	}
 	var enum func(prefix []string, depth int)
 	enum = func(prefix []string, depth int) {
